@@ -196,9 +196,6 @@ class MachineDomain:
             return v
         return float(v)
 
-    def from_input(self, v, typ):
-        return float(v)
-
     def add(self, a, b):
         return a + b
 
@@ -215,6 +212,15 @@ class MachineDomain:
 
     def neg(self, a):
         return -a
+
+    def from_input(self, v, typ):
+        c = self.casts.get(type(typ).__name__ if typ is not None else "F32", None)
+        if c is None:
+            return float(v)
+        with self.np.errstate(all="ignore"):
+            if c in (self.np.int8, self.np.uint8, self.np.uint16, self.np.int32):
+                return float(c(self.np.int64(int(v))))
+            return float(c(v))
 
     def store(self, v, typ):
         c = self.casts.get(type(typ).__name__ if typ is not None else "F32", self.np.float32)
